@@ -26,6 +26,24 @@ def compare_runs(cfg, e1, e2):
     return None
 
 
+def tie_cfg(rnd):
+    """triple ties: on a non-blocking connection two consecutive messages arrive at the same instant (equal send+delay, or the second one held
+    back by FIFO), and that instant is exactly a step time of the receiver - which step takes the second message must not depend on when
+    its arrival stamp reaches the connection's thread"""
+    P0 = rnd.choice([4, 8]); D = P0 + rnd.choice([0, 1, 2, 3])
+    second = D - P0 if (rnd.random() < 0.6 or D - P0 - 1 < 0) else D - P0 - 1        # equal arrival, or earlier and clamped by FIFO
+    nodes = {"n0": dict(nid=0, period=P0, exp=1, delays=[1], advance=False, sched="FREQ"),
+             "n1": dict(nid=1, period=2 * P0, exp=rnd.choice([0, 1]), delays=rnd.choice([[1], [0, 1], [2]]), advance=False, sched=rnd.choice(["FREQ", "PHASE"]))}
+    conns = {"n0>n1": dict(out="n0", **{"in": "n1"}, blocking=False, skip=False, jitter=rnd.choice(["LATEST", "LATEST", "BUFFER"]), window=rnd.choice([1, 2, 3]),
+                           exp=D, delays=[D, second])}
+    sup = "n1"
+    if rnd.random() < 0.5:
+        nodes["n2"] = dict(nid=2, period=rnd.choice([P0, 2 * P0]), exp=1, delays=[1], advance=False, sched="FREQ")
+        conns["n1>n2"] = dict(out="n1", **{"in": "n2"}, blocking=rnd.random() < 0.5, skip=False, jitter="LATEST", window=rnd.choice([1, 2]), exp=1, delays=[1, 0])
+        sup = rnd.choice(["n1", "n2"])
+    return dict(nodes=nodes, conns=conns, sup=sup, steps=rnd.choice([6, 8]))
+
+
 def run(chk, replay=None):
     chk.stage_proofs(kernels=["Async"])
     quick = chk.tier == "quick"
@@ -44,7 +62,10 @@ def run(chk, replay=None):
     variants["start_pause"] = dict(drive="reset_step", perturb=dict(kind="points", points=["start:node"], ms=60))
     starve_owners = ["n0", "n1", "n0>n1", "n1>n0"] if not quick else ["n0", "n0>n1"]
     for o in starve_owners: variants[f"starve:{o}"] = dict(drive="reset_step", perturb=dict(kind="starve", owner=o, ms=3))
+    count = [0]
     def gen(rnd, max_nodes=4):
+        count[0] += 1
+        if count[0] % 3 == 2: return tie_cfg(rnd)
         cfg = al.gen_cfg(rnd, max_nodes=max_nodes, steps=rnd.choice([6, 8]))
         for nd in cfg["nodes"].values(): nd["period"] = max(nd["period"], 4)     # bounds the number of free-running steps per episode
         return cfg
